@@ -31,3 +31,263 @@ pub fn prop() -> HistProp {
         assumptions: vec!["directories that had entries written into them are exempt from the timestamp comparison"],
     }
 }
+
+// ---------------------------------------------------------------------------------------------------------
+// round trip: explicit set_* -> drop -> re-list, over the whole finite domain
+
+use crate::refdec;
+use crate::run::{self, Block, CaseOut, Failure, Report, Tier};
+use crate::session::{guard, ts_of_date, ts_of_dt, Caught, Clock, MountOpts, Session};
+use crate::tree::Ts;
+use crate::vol::{self, VolCfg};
+use serde::{Deserialize, Serialize};
+
+#[derive(Clone, Debug, Serialize, Deserialize)]
+pub struct RtCase {
+    pub y: u16,
+    pub mo: u16,
+    pub d: u16,
+    pub h: u16,
+    pub mi: u16,
+    pub s: u16,
+    pub ms: u16,
+    pub fat: u8,
+    pub raw_check: bool,
+}
+
+struct RtCtx {
+    sess: Session,
+    dev: crate::dev::MemDev,
+}
+
+thread_local! {
+    static RT: std::cell::RefCell<Vec<Option<RtCtx>>> = const { std::cell::RefCell::new(Vec::new()) };
+}
+
+fn rt_ctx(fat: u8) -> Result<usize, String> {
+    let slot = match fat {
+        12 => 0,
+        16 => 1,
+        _ => 2,
+    };
+    RT.with(|r| {
+        let mut r = r.borrow_mut();
+        while r.len() < 3 {
+            r.push(None);
+        }
+        if r[slot].is_none() {
+            let cfg = match fat {
+                12 => VolCfg::from_preset(0),
+                16 => VolCfg::from_preset(8),
+                _ => VolCfg::from_preset(12),
+            };
+            let dev = vol::make_device(&cfg)?;
+            let clock = Clock::new(900_000_000_000);
+            let sess = Session::mount(&dev, &clock, &MountOpts::default()).map_err(|e| format!("{:?}", e))?;
+            let root = sess.root();
+            root.create_dir("dir").map_err(|e| format!("{:?}", e))?;
+            root.create_file("dir/target file.bin").map_err(|e| format!("{:?}", e))?;
+            root.create_file("dir/other.bin").map_err(|e| format!("{:?}", e))?;
+            drop(root);
+            r[slot] = Some(RtCtx { sess, dev });
+        }
+        Ok(slot)
+    })
+}
+
+pub fn rt_eval(c: &RtCase) -> CaseOut {
+    let mut out = CaseOut::default();
+    out.hash = ((c.y as u64) << 48) ^ ((c.mo as u64) << 44) ^ ((c.d as u64) << 39) ^ ((c.h as u64) << 34) ^ ((c.mi as u64) << 28) ^ ((c.s as u64) << 22) ^ ((c.ms as u64) << 12) ^ c.fat as u64;
+    out.nontrivial = c.ms % 10 != 0 || c.s % 2 == 1 || c.y >= 2044 || c.h >= 16;
+    let slot = match rt_ctx(c.fat) {
+        Ok(s) => s,
+        Err(e) => {
+            out.violation = Some(format!("harness: {}", e));
+            return out;
+        }
+    };
+    let cc = c.clone();
+    let r = guard(move || {
+        RT.with(|r| {
+            let mut r = r.borrow_mut();
+            let ctx = r[slot].as_mut().unwrap();
+            let input = Ts { y: cc.y, mo: cc.mo, d: cc.d, h: cc.h, mi: cc.mi, s: cc.s, ms: cc.ms };
+            let date = fatfs::Date::new(cc.y, cc.mo, cc.d);
+            let dt = fatfs::DateTime::new(date, fatfs::Time::new(cc.h, cc.mi, cc.s, cc.ms));
+            {
+                let root = ctx.sess.root();
+                let mut f = root.open_file("dir/target file.bin").map_err(|e| format!("open: {:?}", e))?;
+                f.set_created(dt);
+                f.set_modified(dt);
+                f.set_accessed(date);
+                drop(f);
+            }
+            let check = |what: &str, created: Ts, modified: Ts, accessed: Ts| -> Result<(), String> {
+                if created != input.floor_10ms() {
+                    return Err(format!("{}: created {:?} after setting {:?} (expected {:?})", what, created, input, input.floor_10ms()));
+                }
+                if modified != input.floor_2s() {
+                    return Err(format!("{}: modified {:?} after setting {:?} (expected {:?})", what, modified, input, input.floor_2s()));
+                }
+                if accessed != input.date_only() {
+                    return Err(format!("{}: accessed {:?} after setting {:?} (expected {:?})", what, accessed, input, input.date_only()));
+                }
+                Ok(())
+            };
+            let list = |sess: &Session| -> Result<(Ts, Ts, Ts, Ts), String> {
+                let d = sess.root().open_dir("dir").map_err(|e| format!("open_dir: {:?}", e))?;
+                let mut got = None;
+                let mut other = None;
+                for e in d.iter() {
+                    let e = e.map_err(|e| format!("iter: {:?}", e))?;
+                    if e.file_name() == "target file.bin" {
+                        got = Some((ts_of_dt(e.created()), ts_of_dt(e.modified()), ts_of_date(e.accessed())));
+                    }
+                    if e.file_name() == "other.bin" {
+                        other = Some(ts_of_dt(e.modified()));
+                    }
+                }
+                let g = got.ok_or("target not listed")?;
+                Ok((g.0, g.1, g.2, other.ok_or("other not listed")?))
+            };
+            let (c1, m1, a1, other1) = list(&ctx.sess)?;
+            check("re-list in the same session", c1, m1, a1)?;
+            // the neighbour must be untouched (stamped once at creation from the fixed clock)
+            let want_other = Ts::from_ms(900_000_000_000).floor_2s();
+            if other1 != want_other {
+                return Err(format!("setting times of one entry changed its neighbour's modified time to {:?}", other1));
+            }
+            if cc.raw_check {
+                // remount + raw words
+                let snap = ctx.dev.snapshot();
+                let dec = refdec::decode(&snap, refdec::DecodeOpts { read_data: false, ..Default::default() }).map_err(|e| format!("decode: {}", e))?;
+                let de = dec.root.entries.iter().find(|e| e.visible_string() == "dir").and_then(|e| e.child.as_ref()).ok_or("dir not decoded")?;
+                let e = de.entries.iter().find(|e| e.visible_string() == "target file.bin").ok_or("target not decoded")?;
+                check("raw words decoded independently", Ts::from_words(e.cdate, e.ctime, e.ctime_cs), Ts::from_words(e.mdate, e.mtime, 0), Ts::from_words(e.adate, 0, 0))?;
+                let dev2 = crate::dev::MemDev::new(snap);
+                let clock2 = Clock::new(0);
+                let s2 = Session::mount(&dev2, &clock2, &MountOpts::default()).map_err(|e| format!("remount: {:?}", e))?;
+                let (c2, m2, a2, _) = list(&s2)?;
+                s2.abandon();
+                check("re-list after remount", c2, m2, a2)?;
+            }
+            Ok::<(), String>(())
+        })
+    });
+    match r {
+        Caught::Panic(p) => {
+            RT.with(|r| r.borrow_mut().clear());
+            out.violation = Some(format!("timestamp round trip {:?} panicked: {}", c, p));
+        }
+        Caught::Ok(Err(e)) => out.violation = Some(format!("timestamp round trip {:?}: {}", c, e)),
+        Caught::Ok(Ok(())) => {}
+    }
+    out
+}
+
+fn rt_fail(c: &RtCase, m: String) -> Failure {
+    Failure { message: m, case: serde_json::to_value(c).unwrap(), kind: "timestamp".into() }
+}
+
+pub fn replay(v: &serde_json::Value) -> Result<Option<String>, String> {
+    if v["kind"] == "timestamp" {
+        let c: RtCase = serde_json::from_value(v["case"].clone()).map_err(|e| format!("bad case: {}", e))?;
+        return Ok(rt_eval(&c).violation);
+    }
+    hist::replay_value(&prop(), v)
+}
+
+use super::hist;
+
+pub fn run(tier: Tier, seed: u64) -> i32 {
+    let hp = prop();
+    let rule = format!("{}; round trip: every (year 1980..2107, month 1..12, day 1..31) = 47,616 dates (both tiers, exhaustive) and every (hour, minute, second, 10 ms step) = 8,640,000 times of day (thorough: exhaustive; quick: every (hour, minute) x seconds {{0,1,2,29,30,57,58,59}} x centiseconds {{0,1,50,99}} x ms offsets {{0,5,9}} plus 200,000 random), each set through File::set_created/set_modified/set_accessed, dropped, re-listed in the same session (created floored to 10 ms, modified to 2 s, accessed to the day), every 997th also decoded from the raw words by refdec and re-listed after a remount; a neighbour entry must keep its times; non-trivial = value not already at field resolution, or year >= 2044, or hour >= 16", hp.rule);
+    let mut rep = Report::new("C18", tier, seed, hp.level, &rule);
+    for a in &hp.assumptions {
+        rep.assume(a);
+    }
+    let kb = hist::known_block(&hp, &mut rep);
+    rep.add(kb);
+    // regression (both kinds)
+    let mut reg = Block::new("regress");
+    for f in run::regress_files("C18") {
+        if let Ok(v) = run::load_replay(&f) {
+            let mut out = CaseOut::default();
+            out.hash = run::hash_str(&f);
+            out.nontrivial = true;
+            if let Ok(Some(m)) = replay(&v) {
+                out.violation = Some(m);
+            }
+            reg.record(&out, || v["case"].clone());
+            if let Some(m) = out.violation {
+                if reg.failure.is_none() {
+                    reg.failure = Some(Failure { message: format!("regression case {}: {}", f, m), case: v["case"].clone(), kind: v["kind"].as_str().unwrap_or("history").to_string() });
+                }
+            }
+        }
+    }
+    rep.add(reg);
+    // all dates
+    let n_dates = 128u64 * 12 * 31;
+    let mut d = run::run_indexed("roundtrip_all_dates", n_dates * 3, |i, blk| {
+        let fat = [12u8, 16, 32][(i / n_dates) as usize];
+        let k = i % n_dates;
+        let c = RtCase { y: 1980 + (k / 372) as u16, mo: 1 + ((k / 31) % 12) as u16, d: 1 + (k % 31) as u16, h: (k % 24) as u16, mi: (k % 60) as u16, s: (k % 60) as u16, ms: ((k * 7) % 1000) as u16, fat, raw_check: k % 997 == 0 };
+        let out = rt_eval(&c);
+        blk.record(&out, || serde_json::to_value(&c).unwrap());
+        out.violation.map(|m| rt_fail(&c, m))
+    });
+    d.exhaustive = true;
+    rep.add(d);
+    // times of day
+    if !rep.failed() {
+        if tier == Tier::Thorough {
+            let n = 24u64 * 60 * 60 * 100;
+            let mut t = run::run_indexed("roundtrip_all_times_of_day_10ms", n, |i, blk| {
+                let cs = i % 100;
+                let s = (i / 100) % 60;
+                let mi = (i / 6000) % 60;
+                let h = i / 360000;
+                let c = RtCase { y: 1980 + (i % 128) as u16, mo: 1 + (i % 12) as u16, d: 1 + (i % 28) as u16, h: h as u16, mi: mi as u16, s: s as u16, ms: (cs * 10 + (i % 10)) as u16, fat: [12u8, 16, 32][(i % 3) as usize], raw_check: i % 9973 == 0 };
+                let out = rt_eval(&c);
+                blk.record(&out, || serde_json::to_value(&c).unwrap());
+                out.violation.map(|m| rt_fail(&c, m))
+            });
+            t.exhaustive = true;
+            rep.add(t);
+        } else {
+            let secs = [0u64, 1, 2, 29, 30, 57, 58, 59];
+            let css = [0u64, 1, 50, 99];
+            let offs = [0u64, 5, 9];
+            let n = 24 * 60 * 8 * 4 * 3;
+            let mut t = run::run_indexed("roundtrip_times_boundary_grid", n, |i, blk| {
+                let off = offs[(i % 3) as usize];
+                let cs = css[((i / 3) % 4) as usize];
+                let s = secs[((i / 12) % 8) as usize];
+                let mi = (i / 96) % 60;
+                let h = i / 5760;
+                let c = RtCase { y: 1980 + (i % 128) as u16, mo: 1 + (i % 12) as u16, d: 1 + (i % 31) as u16, h: h as u16, mi: mi as u16, s: s as u16, ms: (cs * 10 + off) as u16, fat: [12u8, 16, 32][(i % 3) as usize], raw_check: i % 997 == 0 };
+                let out = rt_eval(&c);
+                blk.record(&out, || serde_json::to_value(&c).unwrap());
+                out.violation.map(|m| rt_fail(&c, m))
+            });
+            t.exhaustive = false;
+            rep.add(t);
+            if !rep.failed() {
+                let t2 = run::run_indexed("roundtrip_random_times", 200_000, |i, blk| {
+                    let mut m = run::Mix::new(seed, i);
+                    let c = RtCase { y: 1980 + m.below(128) as u16, mo: 1 + m.below(12) as u16, d: 1 + m.below(31) as u16, h: m.below(24) as u16, mi: m.below(60) as u16, s: m.below(60) as u16, ms: m.below(1000) as u16, fat: [12u8, 16, 32][m.below(3) as usize], raw_check: i % 997 == 0 };
+                    let out = rt_eval(&c);
+                    blk.record(&out, || serde_json::to_value(&c).unwrap());
+                    out.violation.map(|m| rt_fail(&c, m))
+                });
+                rep.add(t2);
+            }
+        }
+    }
+    // stamping rules
+    if !rep.failed() {
+        rep.add(hist::random_block(&hp, "stamping_random_histories", seed, tier.pick(hp.quick_cases, hp.thorough_cases)));
+    }
+    rep.finish()
+}
